@@ -17,6 +17,8 @@ SPEC = {
         {"name": "TestStepProfile", "quick": 24, "thorough": 240, "shards_quick": 2, "shards_thorough": 4, "timeout": 3000},
         # drawn startup schedules / rps schedules started in the past, 7-13 s per case: 16 cases per process concurrently; thorough = 160 per process
         {"name": "TestStartup", "quick": 16, "thorough": 160, "shards_quick": 2, "shards_thorough": 4, "timeout": 3000},
+        # dense profiles (thousands of tokens per second per instance) x a 2.1-2.8 s hiccup, 4-7 s per case: 10 cases per process concurrently; thorough = 80 per process
+        {"name": "TestDenseHiccup", "quick": 10, "thorough": 80, "shards_quick": 2, "shards_thorough": 4, "timeout": 3000},
     ],
     "rule": ("generated profiles (once/const/line, optionally two chained; 1-12 tokens per part over 1-4 s), 1-4 instances, shared or "
              "per-instance, discard_overflow on/off, cyclic response-time histories drawn from {0, 50ms, 0.5s, 1.7s, 1.9s, 2.1s, 2.4s, 3s, "
@@ -69,7 +71,14 @@ SPEC = {
              "and the profile is 1.6-3.5 s behind; three cases in eight: the rps schedule object was started (Schedule.Start) 0.5-4 s in the "
              "past before the pool got it (1-3 instances, shared or per-instance; the profile time counts from that start), so that the "
              "first request of the run is overdue; one case in six discard off (2-4 requests); 16 cases concurrently per process; "
-             "non-trivial = some instance asked for its first request >= 1 s into the run or found it >= 0.3 s overdue."),
+             "non-trivial = some instance asked for its first request >= 1 s into the run or found it >= 0.3 s overdue. "
+             "TestDenseHiccup (same oracle; added after seeded defect C04/m17: the run-length clause was never tried where an instance "
+             "falls thousands of tokens behind): steady / ramp / step profiles of 2-4 s at 1500-6000 requests per second PER INSTANCE, 1-4 "
+             "instances (shared schedule at instances x that rate, or one each), discard_overflow on, every response instant except one "
+             "(one case in three: two) per gun of 2.1-2.8 s, at the shot number that corresponds to an instant 0.1-1.2 s into the profile, "
+             "so that every instance comes back >= 2 s behind with up to 23000 tokens of its share still to come; the run must end within "
+             "profile + 2 s + slowest response (+3 s slack), every token is fired or reported as discarded, per-token clauses as everywhere; "
+             "10 cases concurrently per process; non-trivial = every instance discarded and some instance fired again afterwards."),
     "floors": {"TestTiming/late_1_2s": 0.1, "TestTiming/late_2_3s": 0.1, "TestTiming/late_ge_3s": 0.07,
                "TestTiming/discard_off": 0.066, "TestTiming/instances_gt_1": 0.3, "TestTiming/discards_seen": 0.2, "TestTiming/token_waited_for_right_after_a_discard": 0.08,
                "TestNoEarlyShotDense/shots_within_1ms_after_their_time": 0.3,
@@ -93,6 +102,11 @@ SPEC = {
                "TestStartup/discard_on_instance_first_request_overdue_lt_2s": 0.11,
                "TestStartup/gradual_startup": 0.23, "TestStartup/instance_started_ge_1s_into_the_run": 0.17,
                "TestStartup/rps_schedule_started_in_the_past": 0.2, "TestStartup/discard_off": 0.09,
+               "TestDenseHiccup/dense_hiccup_every_instance_discarded": 0.8,
+               "TestDenseHiccup/dense_hiccup_shots_resumed_after_discards": 0.8,
+               "TestDenseHiccup/dense_hiccup_every_instance_ge_2s_behind_with_ge_5000_tokens_each_to_come": 0.4,
+               "TestDenseHiccup/dense_hiccup_every_instance_ge_2s_behind_with_ge_10000_tokens_each_to_come": 0.15,
+               "TestDenseHiccup/dense_hiccup_instances_gt_1": 0.4, "TestDenseHiccup/dense_hiccup_two_hiccups": 0.15,
                "TestLongWaits/single_wait_ge_5s": 0.3, "TestLongWaits/single_wait_ge_8s": 0.08, "TestLongWaits/instances_gt_1": 0.2},
     "manifest": {
         "technique": "property-based testing (rapid generators, batch-parallel, real time) with an interval oracle over measured instants",
